@@ -849,6 +849,8 @@ def lockstep_one(ck, hbin, p):
         R["audit"] = audit
         if d["oraclebad"] != "0":
             what = "the model rejected the recorded A* answers / event order (oracleBad)"
+        elif d.get("stale", "0") != "0":
+            what = "the model's own component self-check failed (stale): lazyprm_components_sound does not apply to this run"
         elif audit and audit.get("sameid_notconnected") != "0":
             what = "REAL roadmap: %s vertex pairs share a component id but are not connected" % audit.get("sameid_notconnected")
     elif p.planner == "RRTConnect":
